@@ -31,15 +31,20 @@ type WEmb struct {
 	ES string
 }
 
+// WGuard is embedded in CfgWrap: a struct without exported fields, which the
+// anonymous-flatten mangler maps to no field at all.
+type WGuard struct{ hidden int }
+
 type CfgWrap struct {
 	Stamp  uint64
 	StampB uint64
-	N      int    `dials:"n" dialsalias:"num"`
-	Str    string `dials:"str_val"`
-	Dur    time.Duration
-	Set    map[string]struct{}
-	Tags   []string
-	In     WIn
+	WGuard
+	N    int    `dials:"n" dialsalias:"num"`
+	Str  string `dials:"str_val"`
+	Dur  time.Duration
+	Set  map[string]struct{}
+	Tags []string
+	In   WIn
 	WEmb
 }
 
